@@ -5,6 +5,10 @@ Oracle for `transmit.DirectTransmission` (C26).
 
 case args: mb=<MaxBatchSize> bt=<BatchTimeout ms> z= ah= sto= nd=<n> d<i>=<host>|<key>|<dataset>|<ok|bad>
 ops:  start | enq <dest> <target> s=<script> | adv <ns> s=<script> | stop s=<script>
+      advh <ns> <k> <dest.dest…> s=<script>  advance; k events are enqueued at the clock `ext held <first id>`
+                                         (while a request answered `hd` was held, i.e. during an in-flight
+                                         send), then the advance continues.  Batches are values in the model:
+                                         = adv to that instant; k enqueues; adv the rest.
       cenq <k> <dest.dest…> s=<script>   k concurrent enqueues (event i goes to the i-th destination,
                                          cyclically); the model runs them one after the other in the order
                                          of `ext order <first id> = <id.id…>` (ids the implementation lost
@@ -77,6 +81,7 @@ def srvOf (exts : List (List String)) (tok : String) : Option Srv :=
   | ["sm", c] => some fun _ => .http (nat c) .absent false []
   | ["sx", c] => some fun _ => .http (nat c) .absent true []
   | ["ra", c, raw] => some fun _ => .http (nat c) (retryAfterOf exts raw) false []
+  | ["hd"] => some Srv.ok
   | ["to"] => some fun _ => .timeout
   | ["hg"] => some fun _ => .timeout
   | ["er"] => some fun _ => .netErr
@@ -144,6 +149,23 @@ def oStep (o : OSt) (op : List String) (exts : List (List String)) : OSt × Opti
       let size := (extVal exts "size" (toString id)).bind String.toNat?
       let s' := enq o.cfg s ⟨id, d, size, 0⟩ script
       ({ o with st := some s', nextId := id + 1 }, some (obsOf o s' (s'.disps.drop s.disps.length) toks))
+  | "advh" :: d :: k :: dl :: _, some s =>
+    let dls := (dl.splitOn ".").filterMap fun x => x.toNat?.bind (o.dests[·]?)
+    match d.toNat?, k.toNat? with
+    | some d, some k =>
+      if dls.isEmpty || dls.length != (dl.splitOn ".").length then (o, some "bad-op") else
+      let base := o.nextId
+      let target := s.now + d
+      let th := ((extVal exts "held" (toString base)).bind String.toNat?).getD target
+      let th := min (max th s.now) target
+      let s1 := adv o.cfg s (th - s.now) script
+      let s2 := (List.range k).foldl (fun st i =>
+        let id := base + i
+        let size := (extVal exts "size" (toString id)).bind String.toNat?
+        enq o.cfg st ⟨id, dls.getD (i % dls.length) ⟨"", "", ""⟩, size, 0⟩ script) s1
+      let s3 := adv o.cfg s2 (target - th) script
+      ({ o with st := some s3, nextId := base + k }, some (obsOf o s3 (s3.disps.drop s.disps.length) toks))
+    | _, _ => (o, some "bad-op")
   | "cenq" :: k :: dl :: _, some s =>
     let dls := (dl.splitOn ".").filterMap fun x => x.toNat?.bind (o.dests[·]?)
     match k.toNat? with
@@ -186,6 +208,7 @@ structure MEv where
   dest : Nat
   t0 : Nat
   fit : Bool
+  size : Nat := 0          -- serialized size (0 when the event does not marshal)
   rank : Nat := 0          -- number of the enqueue operation (concurrent enqueues share one)
   seen : Bool := false
 
@@ -197,12 +220,17 @@ structure MSt where
   now : Nat := 0
   evs : List MEv := []
   nops : Nat := 0
+  hangSeen : Bool := false
+  during : Bool := false        -- some events were enqueued while a send was in flight (`advh`)
   stopped : Bool := false
 
 def mInit (args : List String) : MSt :=
   let nat (k : String) := ((kv args k).getD "0").toNat?.getD 0
   let bad := (List.range (nat "nd")).filter fun i => (parseDest ((kv args s!"d{i}").getD "?")).2 != "ok"
   { mb := nat "mb", bt := nat "bt" * 1000000, bad := bad }
+
+/-- exactly-once failures in a case where events were enqueued during an in-flight send -/
+def duringSfx (m : MSt) : String := if m.during then ":enqueue-during-send" else ""
 
 def fail (sig what : String) : Fail := { prop := "C26", sig := sig, what := what }
 
@@ -267,7 +295,7 @@ def monGroup (m : MSt) (grp : String) : MSt × List Fail :=
         let dup := run.1.filter fun id => (acc.1.evs.find? (·.id == id)).any (·.seen)
         let evs := acc.1.evs.map fun e => if run.1.contains e.id then { e with seen := true } else e
         ({ acc.1 with evs := evs },
-         acc.2 ++ (if dup.isEmpty then [] else [fail "C26:event-in-two-batches" s!"events {natList dup} were placed in more than one sub-batch"]))) (m, [])
+         acc.2 ++ (if dup.isEmpty then [] else [fail ("C26:event-in-two-batches" ++ duringSfx acc.1) s!"events {natList dup} were placed in more than one sub-batch"]))) (m, [])
       let orderFails := if inEnqueueOrder m.evs (rs.flatMap (·.1)) then []
         else [fail "C26:order-not-preserved" s!"sub-batches to d{di} are not in enqueue order"]
       (m', perRec ++ attemptFails ++ dupFails ++ orderFails)
@@ -277,27 +305,55 @@ def tMon (m : MSt) (op : List String) (exts : List (List String)) (obs : Option 
   -- the operation itself
   let m := { m with nops := m.nops + 1 }
   let m := match op with
+    | "advh" :: d :: k :: dl :: _ =>
+      let d := d.toNat?.getD 0
+      let k := k.toNat?.getD 0
+      let target := m.now + d
+      if m.stopped then { m with now := target } else
+      let base := m.evs.length
+      let th := min (max (((extVal exts "held" (toString base)).bind String.toNat?).getD target) m.now) target
+      let dls := (dl.splitOn ".").map fun x => x.toNat?.getD 999
+      let m := (List.range k).foldl (fun m i =>
+        let id := m.evs.length
+        let sz := ((extVal exts "size" (toString id)).bind String.toNat?).getD 0
+        let fit := match (extVal exts "size" (toString id)).bind String.toNat? with
+          | some n => decide (n ≤ maxEventBytes)
+          | none => false
+        { m with evs := m.evs ++ [{ id := id, dest := dls.getD (i % dls.length) 999, t0 := th, fit := fit, size := sz, rank := m.nops * 1000 + i }] }) m
+      { m with now := target, during := m.during || (k > 0) }
     | "cenq" :: k :: dl :: _ =>
       if m.stopped then m else
       let dls := (dl.splitOn ".").map fun x => x.toNat?.getD 999
       (List.range (k.toNat?.getD 0)).foldl (fun m i =>
         let id := m.evs.length
+        let sz := ((extVal exts "size" (toString id)).bind String.toNat?).getD 0
         let fit := match (extVal exts "size" (toString id)).bind String.toNat? with
           | some n => decide (n ≤ maxEventBytes)
           | none => false
-        { m with evs := m.evs ++ [{ id := id, dest := dls.getD (i % dls.length) 999, t0 := m.now, fit := fit, rank := m.nops }] }) m
+        { m with evs := m.evs ++ [{ id := id, dest := dls.getD (i % dls.length) 999, t0 := m.now, fit := fit, size := sz, rank := m.nops * 1000 }] }) m
     | "enq" :: di :: _ =>
       if m.stopped then m else
       let id := m.evs.length
+      let sz := ((extVal exts "size" (toString id)).bind String.toNat?).getD 0
       let fit := match (extVal exts "size" (toString id)).bind String.toNat? with
         | some n => decide (n ≤ maxEventBytes)
         | none => false
-      { m with evs := m.evs ++ [{ id := id, dest := di.toNat?.getD 999, t0 := m.now, fit := fit, rank := m.nops }] }
+      { m with evs := m.evs ++ [{ id := id, dest := di.toNat?.getD 999, t0 := m.now, fit := fit, size := sz, rank := m.nops * 1000 }] }
     | "adv" :: d :: _ => { m with now := m.now + d.toNat?.getD 0 }
     | _ => m
   match op, obs with
   | "start" :: _, _ => (m, [])
   | _, none => (m, [])
+  | _, some "hang" =>
+    -- the harness' watchdog: a dispatch or Stop did not finish although nothing was happening any more
+    let huge := m.evs.filter fun e => e.size + 5 > maxBodyBytes   -- does not fit into a request even alone
+    if m.hangSeen then (m, [])
+    else if huge.isEmpty then
+      ({ m with hangSeen := true }, [fail "C26:transmission-hangs" "a dispatched send or Stop never finished"])
+    else
+      let behind := m.evs.filter fun e => e.fit && !e.seen && !m.bad.contains e.dest
+      ({ m with hangSeen := true },
+       [fail "C26:oversize-event-blocks-destination" s!"events {natList (huge.map (·.id))} are larger than a whole request; the send never finished, events {natList (behind.map (·.id))} behind them were not delivered"])
   | _, some o =>
     let toks := o.splitOn " "
     match kv toks "g", kv toks "c", kv toks "a" with
@@ -317,7 +373,7 @@ def tMon (m : MSt) (op : List String) (exts : List (List String)) (obs : Option 
           [fail "C26:pending-longer-than-1.25-BatchTimeout" s!"events {natList (late.map (·.id))} still not sent at {m.now}, BatchTimeout {m.bt}"] else []) ++
         (if g < 0 then [fail "C26:gauge-negative" s!"queued-items gauge is {g}"] else []) ++
         (if m.stopped && !waiting.isEmpty then
-          [fail "C26:not-flushed-on-stop" s!"events {natList (waiting.map (·.id))} were never sent although the transmission stopped"] else []) ++
+          [fail ("C26:not-flushed-on-stop" ++ duringSfx m) s!"events {natList (waiting.map (·.id))} were never sent although the transmission stopped"] else []) ++
         (if m.stopped && g > 0 then [fail "C26:gauge-leak-after-stop" s!"queued-items gauge is {g} after every event had an outcome"] else []) ++
         (if m.stopped && cs.getD 3 0 < (m.evs.filter (!·.fit)).length then
           [fail "C26:oversize-not-counted-as-error" s!"{(m.evs.filter (!·.fit)).length} oversize events but only {cs.getD 3 0} response errors"] else [])
